@@ -29,6 +29,8 @@ pub struct Recorder {
     resized: bool,
     abandoned: bool,
     usedrt: bool,
+    /// per task: object the current call chain works on
+    inhand: Vec<u32>,
     close_ret: bool,
     /// per task: the operation in progress
     op: Vec<&'static str>,
@@ -60,6 +62,7 @@ impl Recorder {
             resized: false,
             abandoned: false,
             usedrt: false,
+            inhand: vec![],
             close_ret: false,
             op: vec![],
             arg: vec![],
@@ -85,6 +88,7 @@ impl Recorder {
         self.abandoned = false;
         self.usedrt = false;
         self.close_ret = false;
+        self.inhand = vec![0; n];
         self.op = vec!["none"; n];
         self.arg = vec![0; n];
         self.mode = vec![String::new(); n];
@@ -315,6 +319,9 @@ impl Recorder {
             _ => {}
         }
         // a call the task has just entered
+        if let TState::AtCall { obj, .. } = &w.ts[t] {
+            self.inhand[t] = *obj;
+        }
         if let TState::AtCall { kind, idx, obj, rc, .. } = &w.ts[t] {
             e["callk"] = json!(format!("{}{}", kind.name(), if matches!(kind, CallKind::Create | CallKind::Recycle) { String::new() } else { idx.to_string() }));
             e["callobj"] = json!(obj);
@@ -337,8 +344,11 @@ impl Recorder {
         if matches!(st.a.as_str(), "Call" | "Resume" | "Cancel" | "Expire") {
             let out = st.x.first().and_then(|v| v.as_str()).unwrap_or(if st.a == "Call" || st.a == "Resume" { "ok" } else { "fail" });
             if out != "ok" && out != "susp" {
+                // the object in hand is given up: whatever comes next starts a new chain
+                self.chain[t].clear();
                 let objid = match before {
                     Some(TState::AtCall { obj, .. }) => *obj,
+                    Some(TState::Pending { gate: Some((k, _)) }) if !matches!(k, CallKind::Create) => self.inhand[t],
                     _ => 0,
                 };
                 if objid > 0 {
@@ -349,6 +359,10 @@ impl Recorder {
         if let Some(TState::AtPoint("m.retain.lock")) = before {
             // idle list right before the walk
             self.idle_before_walk[t] = w.pre_idle.clone();
+            if st.a != "RtWalk" {
+                // walk executed without a script (drain phase): the predicate keeps everything
+                self.keep[t] = w.pre_idle.clone();
+            }
         }
         if st.a == "RtWalk" {
             self.keep[t] = st
